@@ -233,6 +233,31 @@ Theorem history_readonly s o : (o = ODiff \/ o = OCheck) -> fst (hstep s o) = s.
 Proof. intros [->| ->]; cbn; destruct (content_of (h_variant s)); reflexivity. Qed.
 End History.
 
+(* ------------------------------------------------------------------ histories, evaluated for the correspondence *)
+Fixpoint htrace (content_of : nat -> option nat) (ops : list hop) (s : hstate) : list (nat * option nat) :=
+  match ops with
+  | [] => []
+  | o :: r => let '(s', ex) := hstep content_of s o in (ex, h_out s') :: htrace content_of r s'
+  end.
+
+Fixpoint content_assoc (l : list (nat * option nat)) (v : nat) : option nat :=
+  match l with [] => None | (k, c) :: r => if Nat.eqb k v then c else content_assoc r v end.
+
+(* a history: what a fresh checkout gets per source variant, the starting variant, the operations, and the observed
+   (exit status, content of the output file) after every operation *)
+Record hcase := mkHCase { hk_id : nat; hk_contents : list (nat * option nat); hk_start : nat; hk_ops : list hop;
+                          hk_obs : list (nat * option nat) }.
+
+Definition step_eqb (a b : nat * option nat) : bool :=
+  Nat.eqb (fst a) (fst b) &&
+  match snd a, snd b with Some x, Some y => Nat.eqb x y | None, None => true | _, _ => false end.
+
+Fixpoint steps_eqb (a b : list (nat * option nat)) : bool :=
+  match a, b with [], [] => true | x :: r, y :: q => step_eqb x y && steps_eqb r q | _, _ => false end.
+
+Definition hmismatches (ks : list hcase) : list nat :=
+  map hk_id (filter (fun k => negb (steps_eqb (htrace (content_assoc (hk_contents k)) (hk_ops k) (mkH (hk_start k) None)) (hk_obs k))) ks).
+
 (* ------------------------------------------------------------------ harness side *)
 Definition cli_case := (nat * bool * bool * list pkgres * fs)%type.   (* cmd: 0 gen,1 diff ; header_unreadable; load_err *)
 Definition run_cli (k : nat * bool * bool * list pkgres * fs) : nat * list (nat * option nat) :=
